@@ -408,3 +408,166 @@ Contract(
     entry_facts=lambda c: [closed_wmaps(c)],
     props=P04,
 )
+
+
+# ---- Worker.step ------------------------------------------------------------------------------------------------
+from contracts.c_tasks import wf_task, some, get, RUNNING as T_RUNNING  # noqa: E402
+from contracts.c_utils import us as _us  # noqa: E402
+
+TaskList = T.List(S_.TASKR)
+ProfList = T.List(S_.PROFR)
+
+Contract(
+    "workload.strategy.ExecutionStrategy.__init__",
+    params={"self": S_.STRAT, "resources": T.Ref(RESOURCES), "batch_size": T.INT, "runtime": ETy},
+    trusted=True,
+    modifies=lambda c: {c.pre.fld_arr(STRAT, f)[0]: [c.arg("self")] for f in ("_resources", "_batch_size", "_runtime", "_id", "_hash")},
+    ensures=lambda c: z3.And(
+        c.f(c.arg("self"), STRAT, "_resources") == c.arg("resources"),
+        c.f(c.arg("self"), STRAT, "_batch_size") == c.arg("batch_size"),
+        c.f(c.arg("self"), STRAT, "_runtime") == c.arg("runtime"),
+    ),
+    note="ExecutionStrategy.__init__: field assignments plus a random id (uuid from random.getrandbits); body not executed because of uuid/hash",
+    props=P04 + ("C03",),
+)
+
+
+def step_finishes(h, t, now, d):
+    """Task.step's `finished` verdict (contract step.finished_iff) evaluated in state h"""
+    rem = h.rd(t, TASK, "_remaining_time")[1]
+    last = h.rd(t, TASK, "_last_step_time")[1]
+    running = z3.And(h.rd(t, TASK, "_state")[1] == T_RUNNING, _us(h.rd(t, TASK, "_start_time")[1]) <= _us(now) + _us(d))
+    active = z3.And(running, _us(get(rem)) != 0)
+    return z3.And(active, _us(get(rem)) - (_us(now) + _us(d) - _us(get(last))) <= 0)
+
+
+def _wstep_mod(c):
+    w = c.arg("self")
+    out = {
+        c.pre.fld_arr(TASK, "_remaining_time")[0]: ANY,
+        c.pre.fld_arr(TASK, "_last_step_time")[0]: ANY,
+        c.pre.fld_arr(STRAT, "_runtime")[0]: ANY,
+    }
+    for part in ("len", "keys", "idx", "dom", "val"):
+        out[c.pre.carr(PF, part)[0]] = [wap(c.pre, w), wpp(c.pre, w)]
+    return out
+
+
+def _wstep_tasks_inv(c, L):
+    """tasks before position i have been stepped (or skipped); the others are untouched; the collected list holds
+    exactly the stepped RUNNING tasks whose step reported completion"""
+    w = c.arg("self")
+    h = c.post
+    pt = wpt(c.pre, w)
+    keys = c.pre.d_keys(PT, pt)
+    idx = z3.Select(c.pre.carr(PT, "idx")[1], pt)
+    now, d = c.arg("current_time"), c.arg("step_size")
+    t = z3.Int(H.fresh_name("ws_t"))
+    res = L.var("completed_tasks")
+    fin0 = step_finishes(c.pre, t, now, d)
+    visited = z3.And(c.pre.d_dom(PT, pt, t), z3.Select(idx, t) < L.i)
+    rem = lambda hh: hh.rd(t, TASK, "_remaining_time")[1]
+    last = lambda hh: hh.rd(t, TASK, "_last_step_time")[1]
+    return {
+        "collected_exactly_finished": z3.ForAll([t], h.l_mem(TaskList, res, t) == z3.And(visited, fin0), patterns=[h.l_mem(TaskList, res, t)]),
+        "unvisited_untouched": z3.ForAll([t], z3.Implies(z3.And(z3.Not(visited), 0 < t, t < c.alloc0), z3.And(rem(h) == rem(c.pre), last(h) == last(c.pre))), patterns=[rem(h)]),
+        "list_fresh": res >= c.alloc0,
+    }
+
+
+def _wstep_ens(c):
+    w = c.arg("self")
+    pt = wpt(c.pre, w)
+    now, d = c.arg("current_time"), c.arg("step_size")
+    t = z3.Int(H.fresh_name("we_t"))
+    R = wres(c.pre, w)
+    return {
+        # C03: the completed list is exactly the placed RUNNING tasks whose Task.step reports completion
+        "step.completed_iff": z3.ForAll(
+            [t], c.post.l_mem(TaskList, c.res, t) == z3.And(c.pre.d_dom(PT, pt, t), step_finishes(c.pre, t, now, d)), patterns=[c.post.l_mem(TaskList, c.res, t)]
+        ),
+        "step.list_fresh": c.res >= c.alloc0,
+    }
+
+
+Contract(
+    "workers.workers.Worker.step",
+    params={"self": S_.Worker.ty, "current_time": ETy, "step_size": ETy},
+    ret=TaskList,
+    requires=lambda c: {
+        "wf": wf_worker(c.pre, c.arg("self")),
+        "step_nonneg": _us(c.arg("step_size")) >= 0,
+        "tasks_wf": _placed_tasks_wf(c.pre, c.arg("self")),
+        "profile_maps_distinct": wap(c.pre, c.arg("self")) != wpp(c.pre, c.arg("self")),
+    },
+    modifies=_wstep_mod,
+    loops={
+        0: Loop(inv=lambda c, L: _wstep_prof_inv(c, L, 0), modifies=lambda c: _wstep_loop01_mod(c, 0)),
+        1: Loop(inv=lambda c, L: _wstep_prof_inv(c, L, 1), modifies=lambda c: _wstep_loop01_mod(c, 1)),
+        2: Loop(inv=_wstep_tasks_inv, modifies=lambda c: _wstep_loop2_mod(c)),
+    },
+    locals={"completed_tasks": TaskList, "invalid_profiles": ProfList},
+    ensures=_wstep_ens,
+    entry_facts=lambda c: [closed_wmaps(c)],
+    allocates=True,
+    props=("C03", "C04"),
+)
+
+
+def _placed_tasks_wf(h, w):
+    pt = wpt(h, w)
+    t = z3.Int(H.fresh_name("pw_t"))
+    return z3.ForAll([t], z3.Implies(h.d_dom(PT, pt, t), wf_task(h, t)), patterns=[h.d_dom(PT, pt, t)])
+
+
+def _wstep_loop01_mod(c, which):
+    w = c.arg("self")
+    out = {}
+    fr = c.run.frames[-1].env
+    inv = fr.get("invalid_profiles")
+    if which == 0:
+        out = {c.pre.fld_arr(STRAT, "_runtime")[0]: ANY}
+        for f in ("_resources", "_batch_size", "_id", "_hash"):
+            out[c.pre.fld_arr(STRAT, f)[0]] = []
+        for part in ("len", "keys", "idx", "dom", "val"):
+            out[c.pre.carr(PF, part)[0]] = [wap(c.pre, w)]
+        out[c.pre.carr(ProfList, "len")[0]] = [inv.z]
+        out[c.pre.carr(ProfList, "elem")[0]] = [inv.z]
+    else:
+        for part in ("len", "keys", "idx", "dom"):
+            out[c.pre.carr(PF, part)[0]] = [wpp(c.pre, w)]
+    return out
+
+
+def _wstep_prof_inv(c, L, which):
+    """the profiles collected for removal are distinct pending profiles (so each `del` finds its key)"""
+    w = c.arg("self")
+    h = c.post
+    pp = wpp(c.pre, w)
+    inv = L.var("invalid_profiles")
+    a, b = z3.Int(H.fresh_name("pi_a")), z3.Int(H.fresh_name("pi_b"))
+    n = h.c_len(ProfList, inv)
+    el = lambda k: h.l_elem(ProfList, inv, k)
+    idx0 = z3.Select(c.pre.carr(PF, "idx")[1], pp)
+    out = {
+        "list_fresh": z3.And(inv >= c.alloc0, inv != wpp(c.pre, w)),
+        "distinct": z3.ForAll([a, b], z3.Implies(z3.And(0 <= a, a < b, b < n), z3.Select(idx0, el(a)) < z3.Select(idx0, el(b)))),
+    }
+    if which == 0:
+        out["collected_are_visited_pending"] = z3.ForAll([a], z3.Implies(z3.And(0 <= a, a < n), z3.And(c.pre.d_dom(PF, pp, el(a)), z3.Select(idx0, el(a)) < L.i)), patterns=[el(a)])
+        out["pending_untouched"] = z3.And(h.d_doms(PF, pp) == c.pre.d_doms(PF, pp), h.c_len(PF, pp) == c.pre.c_len(PF, pp), h.d_keys(PF, pp) == c.pre.d_keys(PF, pp))
+    else:
+        out["remaining_still_pending"] = z3.ForAll([a], z3.Implies(z3.And(L.i <= a, a < n), h.d_dom(PF, pp, el(a))), patterns=[el(a)])
+        out["collected_were_pending"] = z3.ForAll([a], z3.Implies(z3.And(0 <= a, a < n), c.pre.d_dom(PF, pp, el(a))), patterns=[el(a)])
+    return out
+
+
+def _wstep_loop2_mod(c):
+    fr = c.run.frames[-1].env
+    res = fr.get("completed_tasks")
+    return {
+        c.pre.fld_arr(TASK, "_remaining_time")[0]: ANY,
+        c.pre.fld_arr(TASK, "_last_step_time")[0]: ANY,
+        c.pre.carr(TaskList, "len")[0]: [res.z],
+        c.pre.carr(TaskList, "elem")[0]: [res.z],
+    }
